@@ -55,7 +55,7 @@ def nesting_ok(src, limit=64):
 
 class C13(Check):
     prop = "C13"
-    rule = ("inputs: systematic single-token deletion/replacement/insertion/truncation of 269 seed programs, random multi-edit and "
+    rule = ("inputs: systematic single-token deletion/replacement/insertion/truncation of 274 seed programs (269 extracted from the repository's tests, examples and library, 5 written for generic classes), random multi-edit and "
             "byte mutants, multi-file trees with a mutated member, and a coverage-guided libFuzzer campaign; bounded to 4 KiB and "
             "bracket nesting 64. non-trivial = input not accepted and past the lexer (parser or analyser reached), or accepted and "
             "different from every seed; distinct = SHA-1 of the input text")
@@ -269,7 +269,7 @@ def systematic(src, spans, rot):
             out.append(src[:a] + x + src[b:])
     # name confusion inside one program: every identifier once replaced by another identifier of the SAME program (rotating),
     # and the name after `extends` by every class declared in the program (self-inheritance, cycles, a class hanging off a cycle)
-    always = []  # few and structurally interesting: run in every tier
+    always = [src]  # the seed itself, and few structurally interesting mutants: run in every tier
     idents = sorted({src[a:b] for a, b, ty in spans if ty == "Identifier"})
     classes = sorted({src[spans[i + 1][0]:spans[i + 1][1]] for i, (a, b, ty) in enumerate(spans[:-1])
                       if src[a:b] == "class" and spans[i + 1][2] == "Identifier"})
